@@ -50,6 +50,7 @@ fn detail(text: &str, what: &str) -> serde_json::Value {
 
 /// C14 oracle. Returns failures (keys prefixed C14:).
 pub fn oracle_c14(text: &str, out: &mut Vec<Failure>) -> usize {
+    note_case(1, text);
     let r = guarded(|| {
         let mut fails: Vec<(String, String)> = vec![];
         let mut toks: Vec<(oq3_lexer::TokenKind, u32)> = vec![];
@@ -237,6 +238,13 @@ fn tree_checks(
 
 /// All text-level oracles. Failures for all four properties are appended to `out`.
 pub fn oracle_text(text: &str, out: &mut Vec<Failure>) -> TextFacts {
+    note_case(1, text);
+    let facts = oracle_text_inner(text, out);
+    clear_case();
+    facts
+}
+
+fn oracle_text_inner(text: &str, out: &mut Vec<Failure>) -> TextFacts {
     let mut facts = TextFacts {
         n_tokens: 0,
         n_nontrivia: 0,
